@@ -33,7 +33,7 @@ theorem chkValue_iff (f : FlowT) (val : Int) : N.chkValue f val = true ↔ N.val
 theorem chkCut_iff (f : FlowT) (S : List Nat) :
     N.chkCut f S = true ↔ N.s ∈ S ∧ N.t ∉ S ∧ N.Saturated f.get S := by
   simp only [chkCut, Saturated, Bool.and_eq_true, List.contains_iff_mem, Bool.not_eq_eq_eq_not,
-    Bool.not_true, List.all_eq_true, Bool.or_eq_true, beq_iff_eq, Bool.not_eq_true']
+    Bool.not_true, List.all_eq_true, Bool.or_eq_true, beq_iff_eq]
   constructor
   · rintro ⟨⟨hs, ht⟩, h⟩
     refine ⟨hs, by simpa using ht, ?_⟩
@@ -84,7 +84,7 @@ theorem step_spec {f : FlowT} {u v : Nat} {d : Int} (huv : u ≠ v) (hd0 : 0 ≤
   unfold step
   split
   · rename_i hpos
-    simp only [FlowT.get_set, true_and, and_self, if_true, hvu, huv', if_false]
+    simp only [FlowT.get_set, and_self, if_true, hvu, huv', if_false]
     rcases Int.le_total d (f.get v u) with hle | hle
     · rw [Int.min_eq_left hle]; omega
     · rw [Int.min_eq_right hle]; omega
@@ -120,11 +120,11 @@ theorem excess_step (hV : N.V.Nodup) {f : FlowT} {u v : Nat} {d : Int} (huv : u 
     by_cases c1 : y = u ∧ x = v
     · obtain ⟨rfl, rfl⟩ := c1
       have : ¬ (y = x) := huv
-      simp [this, huv.symm]; omega
+      simp [this]; omega
     · by_cases c2 : y = v ∧ x = u
       · obtain ⟨rfl, rfl⟩ := c2
         have : ¬ (y = x) := fun h => huv h.symm
-        simp [this, huv]; omega
+        simp [this]; omega
       · have e1 : (step f u v d).get y x = f.get y x := step_other f u v d y x c1 c2
         have e2 : (step f u v d).get x y = f.get x y :=
           step_other f u v d x y (fun h => c2 ⟨h.2, h.1⟩) (fun h => c1 ⟨h.2, h.1⟩)
@@ -172,7 +172,7 @@ theorem pathGe_mono {g : Nat → Nat → Int} {d d' : Int} (hd : d' ≤ d) :
     ∀ (p : List Nat), PathGe g d p → PathGe g d' p
   | [], _ => trivial
   | [_], _ => trivial
-  | u :: v :: r, h => ⟨Int.le_trans hd h.1, pathGe_mono hd (v :: r) h.2⟩
+  | _ :: v :: r, h => ⟨Int.le_trans hd h.1, pathGe_mono hd (v :: r) h.2⟩
 
 theorem lastIs_append (nb : Nat) : ∀ (p : List Nat), LastIs nb (p ++ [nb])
   | [] => rfl
